@@ -137,14 +137,28 @@ func runCOMMIT(c *Ctx) {
 			fn   *ssa.Function
 			call ssa.CallInstruction
 			eff  Effect
+			tops map[string]bool // where the way to the step leaves the entry point's own code
 		}
 		found := map[string]hit{}
 		visited := map[string]bool{}
 		nLeaves := 0
 		// bind: what the function-typed parameters of fn were given by the call that led here
+		// exit: where the way to the failing call leaves the entry point's own code (the entry function and the
+		// private helpers split out of it — called from nowhere else): the shared function called there, or
+		// "directly" when the failing call itself sits in that code. A finding is a set of windows "this step can
+		// fail after those effects"; its key names the exits, so that a new step through other shared machinery
+		// (a validation of the edited node added after the in-place edit) is a new finding even when what fails
+		// underneath and what was changed before are the same as in a known one — while extracting helpers from the
+		// entry point or from the functions below the exit is not. (A further *direct* call of the same callback in
+		// the same window is not told apart.)
+		inRegion := map[*ssa.Function]bool{}
+		for _, f := range regionOf(c, entry) {
+			inRegion[f] = true
+		}
+		var exit string
 		var walk func(fn *ssa.Function, inh ctxKinds, depth int, bind map[*ssa.Parameter]ssa.Value)
 		walk = func(fn *ssa.Function, inh ctxKinds, depth int, bind map[*ssa.Parameter]ssa.Value) {
-			key := ir.FuncName(fn) + "|" + keyOf(inh)
+			key := ir.FuncName(fn) + "|" + keyOf(inh) + "|" + exit
 			if visited[key] || depth > 8 {
 				return
 			}
@@ -189,6 +203,12 @@ func runCOMMIT(c *Ctx) {
 						} else {
 							before.loop[k] = true
 						}
+					}
+				}
+				if inRegion[ir.Outermost(fn)] {
+					exit = "directly"
+					if g := calleeOrClosure(ci.Common()); g != nil && g.Blocks != nil && isOwn(P, g) && !inRegion[ir.Outermost(g)] {
+						exit = ir.FuncName(g)
 					}
 				}
 				descended := false
@@ -255,8 +275,10 @@ func runCOMMIT(c *Ctx) {
 					continue
 				}
 				k := name + " {" + keyOf(before) + "}"
-				if _, dup := found[k]; !dup {
-					h := hit{fn: fn, call: ci}
+				if h, dup := found[k]; dup {
+					h.tops[exit] = true
+				} else {
+					h := hit{fn: fn, call: ci, tops: map[string]bool{exit: true}}
 					if first != nil {
 						h.eff = *first
 					} else {
@@ -274,6 +296,12 @@ func runCOMMIT(c *Ctx) {
 		sort.Strings(keys)
 		for _, k := range keys {
 			h := found[k]
+			var exits []string
+			for e := range h.tops {
+				exits = append(exits, e)
+			}
+			sort.Strings(exits)
+			k = strings.Replace(k, " {", " reached "+strings.Join(exits, ", ")+" {", 1)
 			c.Violation(entry, P.InstrPos(h.call), "effect before fallible "+k,
 				fmt.Sprintf("in %s, %s can fail after the tree was already changed (%s at %s): on that error the caller of %s sees a failed operation but a modified tree (contents/size/height no longer those before the call)",
 					ir.FuncName(h.fn), strings.SplitN(k, " {", 2)[0], h.eff.Desc, P.InstrPos(h.eff.Instr), entry.Name()),
